@@ -150,6 +150,8 @@ Fixpoint start (en : env) (c : cmd) : rc :=
   | CIdEv c' => RMapEv 0 (start en c')
   | CInto c' => RMapEv 0 (RMapEff 0 (start en c'))
   | CAbortable _ c' => start en c'
+  | CSendR r ev => RBag (start_bag en (task_of_rb r (fun v => TEmit ev v TRet)) [])
+  | CSendS s ev => RBag (start_bag en (task_of_sb s (fun v => TEmit ev v TRet)) [])
   end.
 
 Fixpoint rdone (c : rc) : bool :=
@@ -348,6 +350,7 @@ Fixpoint cmd_abort_free (c : cmd) : bool :=
   | CAll cs => forallb cmd_abort_free cs
   | CMapEff _ c' | CMapEv _ c' | CIdEff c' | CIdEv c' | CInto c' => cmd_abort_free c'
   | CAbortable _ _ => false
+  | CSendR _ _ | CSendS _ _ => true
   end.
 Definition sched_abort_free (acts : list action) : bool :=
   forallb (fun a => match a with AAbort _ => false | _ => true end) acts.
